@@ -66,7 +66,7 @@ StepP(e) ==
 
 \* ---- SimulatorTask
 RunCoarse(p) == CASE p = "cwait" -> "condwait" [] p \in {"new", "x1", "u1", "e2", "e2n", "e3", "f1", "k1", "e4", "rel"} -> "ready" [] OTHER -> p
-PollCoarse(p) == IF p \in {"new", "a", "b", "c"} THEN "ready" ELSE p
+PollCoarse(p) == IF p \in {"new", "r", "a", "b", "c"} THEN "ready" ELSE p
 ProjS == <<srs, srr, sos, sor, sfe, RunCoarse(srun), PollCoarse(spoll), snpoll, sfile, IF scall \in {"new", "k1"} THEN "ready" ELSE scall,
            CASE swait = "blocked" -> "evwait" [] swait = "new" -> "ready" [] OTHER -> swait, sseen, SimLockHeld, skills>>
 StepS(e) ==
